@@ -9,7 +9,7 @@ EXPLANATION = ('Decides on the MIR of the current tree: the shutdown path main â
                'partition (under its write lock) and segment with errors propagated; partition load sorts segments before deriving end offsets and the append position, pushes a segment '
                'only after it loaded, and restores consumer offsets; every recovered position has its confirmed normal form (current offset from the last index entry, index position and '
                'size from the log size, closed last segment end = its current offset); the index is rebuilt only when absent; cache warm-up honours the integrity check. '
-               'Not decided: equality of served content before/after restart; NoWait confirmation at shutdown.')
+               'Also: what a flushed batch records about its offsets, and what the index rebuilder derives from it, keep their confirmed forms (offsets survive an index rebuild). Not decided: equality of served content before/after restart; NoWait confirmation at shutdown.')
 ASSUMPTIONS = ['forms in props/storage_forms.py are the pinned representation', 'tokio RwLock write guard gives exclusive access']
 
 CHAIN = [
@@ -133,6 +133,11 @@ def run(ctx, rep):
         for p in ps:
             ok = any(expr_has_call(e, 'cache_integrity_check') and tr for e, tr, _ in bool_literals_at(wb, p.bb))
             rep.ob('R03.e', name, 'push after integrity check', ok, p.where(), None if ok else 'messages are put into the cache without the contiguity check having passed')
+
+    # ------------------------------------------------------------ R03.g the shared counters go down the hierarchy to the level they belong to
+    rep.rule('R03.g', 'the shared size / message / segment counters handed to Topic::create, Partition::create and Segment::create reach the parameter of their own kind and level, at run time and at load (a counter passed in a sibling slot adds every loaded segment to the wrong level or twice to one level)', floor=40, analysis='A13')
+    import idkinds as idk_
+    idk_.check_counter_kinds(ctx, rep, 'R03.g', ['server::streaming::'])
 
 
 def _mentions_time(body, e):
